@@ -43,8 +43,16 @@ func runC35s(env *kernel.Env) {
 	ip.must("CREATE TABLE w (id INT PRIMARY KEY, x INT)")
 	ip.must("CREATE TABLE big (id INT PRIMARY KEY, v INT)")
 	ip.must("INSERT INTO big VALUES (1,1),(2,2),(3,3)")
+	// strings outside ASCII, all inside U+0080..U+00FF where latin1 is one byte
+	// per character with the code point as its value
+	ip.must("CREATE TABLE sx (id INT PRIMARY KEY, s VARCHAR(20))")
+	sxRows := []string{"ascii", "café", "naïve Über", "¡¿ñÿ"}
+	for i, s := range sxRows {
+		ip.must(fmt.Sprintf("INSERT INTO sx VALUES (%d, '%s')", i+1, s))
+	}
 	model := map[int64]int64{}
 	n := T.Range(2, 4)
+	charset := make([]string, 4) // per connection: what character_set_results was last set to
 	var clients []*Client
 	stmts := make([]map[string]driver.Stmt, n)
 	for i := 0; i < n; i++ {
@@ -142,6 +150,7 @@ func runC35s(env *kernel.Env) {
 			return false
 		}
 		stmts[ci] = map[string]driver.Stmt{}
+		charset[ci] = ""
 		return true
 	}
 	for step := 0; step < steps && !env.Failed(); step++ {
@@ -236,7 +245,55 @@ func runC35s(env *kernel.Env) {
 			}
 			continue
 		}
-		switch T.Pick(5, 4, 2, 2, 3, 2, 2, 2, 5, 2) {
+		switch T.Pick(5, 4, 2, 2, 3, 2, 2, 2, 5, 2, 2, 3) {
+		case 10: // the connection changes the character set of its results
+			cs := []string{"latin1", "utf8mb4", "latin1", "utf8mb3"}[T.Draw(4)]
+			q = []string{"SET character_set_results = '%s'", "SET NAMES %s", "SET CHARACTER SET %s", "SET @@session.character_set_results = '%s'"}[T.Draw(4)]
+			q = fmt.Sprintf(q, cs)
+			c.Start(c.ExecOp(q, r), nil)
+			if !drive(c, "set-charset") {
+				return
+			}
+			env.Kind("set-charset:" + cs)
+			env.Logf("%s: %s -> err=%v", c.Name, q, r.Err)
+			if r.Err != nil {
+				env.Fail("valid-statement-succeeds", "statement-refused:set-charset", "%s: %q failed: %v", c.Name, q, r.Err)
+				return
+			}
+			charset[ci] = cs
+			continue
+		case 11: // strings arrive in the character set the connection asked for last
+			how := "text"
+			if T.Bool(1, 3) {
+				how = "prepared"
+				c.Start(c.QueryOp("SELECT id, s FROM sx WHERE id >= ? ORDER BY id", []driver.Value{int64(0)}, true, r), nil)
+			} else {
+				c.Start(c.QueryOp("SELECT id, s FROM sx ORDER BY id", nil, false, r), nil)
+			}
+			if !drive(c, "read-strings") {
+				return
+			}
+			env.Kind("read-strings:" + how + ":" + charset[ci])
+			var want []string
+			for i, s := range sxRows {
+				enc := s
+				if charset[ci] == "latin1" {
+					b := make([]byte, 0, len(s))
+					for _, ru := range s {
+						b = append(b, byte(ru))
+					}
+					enc = string(b)
+				}
+				want = append(want, fmt.Sprintf("(%d,%s)", i+1, enc))
+			}
+			got := rowsOf(r)
+			env.Logf("%s: read sx (%s, results in %q) -> %q err=%v", c.Name, how, charset[ci], got, r.Err)
+			if r.Err != nil {
+				env.Fail("valid-statement-succeeds", "read-failed", "%s: reading sx (%s) failed: %v", c.Name, how, r.Err)
+			} else if got != strings.Join(want, " ") {
+				env.Fail("strings-in-the-requested-character-set", "wrong-result-encoding:"+how, "%s asked for results in %q last and reads sx (%s) as %q; the engine's strings in that character set are %q", c.Name, charset[ci], how, got, strings.Join(want, " "))
+			}
+			continue
 		case 0: // INSERT two fresh rows
 			kind = "insert"
 			a, b := nextID+1, nextID+2
